@@ -120,7 +120,7 @@ theorem delete_absent_noop (s : EState) :
     (∀ p : Pod, s.eng.findPod (Engine.podKey p) = none → s.delete (.pod p) = (.ok, s)) ∧
     (∀ n : NsObj, (∀ x ∈ s.eng.namespaces, x.name ≠ n.name) →
       s.delete (.ns n) = (.ok, s.cacheClear)) ∧
-    (∀ p : NetPol, (∀ x ∈ s.eng.netpols, ¬ (x.ns = p.ns ∧ x.name = p.name)) →
+    (∀ p : NetPol, (∀ x ∈ s.eng.netpols, ¬ (x.ns = npNs p ∧ x.name = p.name)) →
       s.delete (.np p) = (.ok, s.cacheClear)) ∧
     (∀ a : ANP, a.name ∉ s.eng.anpNames → (∀ x ∈ s.eng.anps, x.name ≠ a.name) →
       s.delete (.anp a) = (.ok, s.cacheClear)) ∧
@@ -129,6 +129,19 @@ theorem delete_absent_noop (s : EState) :
     s.cacheClear.eng = s.eng :=
   ⟨delete_absent_pod s, delete_absent_ns s, delete_absent_np s, delete_absent_anp s,
    delete_absent_banp s, delete_other_banp s, rfl⟩
+
+/-- **`DeleteObject` of a NetworkPolicy removes it from the namespace `InsertObject` stored it in**, also when the
+object is written without `metadata.namespace` (stored under `default`): no policy of that name is left there -/
+theorem delete_np_removes (s : EState) (p : NetPol) :
+    ∀ x ∈ (s.delete (.np p)).2.eng.netpols, ¬ (x.ns = npNs p ∧ x.name = p.name) :=
+  EState.delete_np_removes s p
+
+/-- **`SetResources` is a history of `InsertObject` calls** (namespaces, then policies, then pods, ending with the first
+rejected one): every statement above about all histories covers the histories that contain it -/
+theorem setResources_is_history (s : EState) (nps : List NetPol) (pods : List Pod) (nss : List NsObj) :
+    ∃ k, (s.setResources nps pods nss).2 =
+      s.run (((nss.map Obj.ns ++ nps.map Obj.np ++ pods.map Obj.pod).take k).map HOp.ins) :=
+  EState.insertAll_is_run s _
 
 /-- in a reachable state an admin policy is absent as soon as its name is not registered -/
 theorem delete_absent_anp_reachable (n : Nat) (ops : List HOp) (a : ANP)
